@@ -17,7 +17,12 @@ M = []
 
 
 def m(props, name, file, old, new, count=1):
-    M.append(dict(props=props.split(","), name=name, file=file, old=old, new=new, count=count))
+    M.append(dict(props=props.split(","), name=name, edits=[(file, old, new, count)], file=file))
+
+
+def m_multi(props, name, edits):
+    """edits: [(file, old, new), ...] applied together (cooperating edits)"""
+    M.append(dict(props=props.split(","), name=name, edits=[(f, o, n, None) for f, o, n in edits], file=edits[0][0]))
 
 
 ENC = "vc2_conformance/encoder/pictures.py"
@@ -85,11 +90,12 @@ def run_one(mut, prop, tier, seed):
     try:
         for sub in ("vc2_conformance", "tests"):
             shutil.copytree(os.path.join("/repo", sub), os.path.join(d, sub), ignore=shutil.ignore_patterns("__pycache__"))
-        p = os.path.join(d, mut["file"])
-        s = open(p).read()
-        if s.count(mut["old"]) != mut["count"]:
-            return "NOT-APPLIED (%d occurrences)" % s.count(mut["old"]), ""
-        open(p, "w").write(s.replace(mut["old"], mut["new"]))
+        for file, old, new, count in mut["edits"]:
+            p = os.path.join(d, file)
+            s = open(p).read()
+            if (count is not None and s.count(old) != count) or s.count(old) == 0:
+                return "NOT-APPLIED (%d occurrences)" % s.count(old), ""
+            open(p, "w").write(s.replace(old, new))
         env = dict(os.environ, VPBT_REPO=d, VPBT_OUT=d, VERIF_SEED=str(seed))
         # a mutant may make the code under test spin (e.g. a rate-control search that never terminates):
         # bound the run and kill the whole process group; a timeout counts as "caught:hang" only if noted
@@ -128,9 +134,14 @@ def main():
     ap.add_argument("--only", default=None, help="substring of mutant name")
     a = ap.parse_args()
     # mutant tables contributed by other modules
-    extra = os.path.join(os.path.dirname(os.path.realpath(__file__)), "mutants_extra.py")
-    if os.path.exists(extra):
-        exec(compile(open(extra).read(), extra, "exec"), {"m": m})
+    # mutant tables contributed by the builders of C15 / C16: MUTANTS = [(name, [(file, old, new), ...]), ...]
+    for prop, fname in (("C15", "mutants_c15.py"), ("C16", "mutants_c16.py")):
+        extra = os.path.join(os.path.dirname(os.path.realpath(__file__)), fname)
+        if os.path.exists(extra):
+            ns = {}
+            exec(compile(open(extra).read(), extra, "exec"), ns)
+            for name, edits in ns["MUTANTS"]:
+                m_multi(prop, name, edits)
     todo = []
     for mut in M:
         for prop in mut["props"]:
